@@ -37,7 +37,8 @@
      positional maps over the positions of one instance; (iii) the remaining clauses of denote at document level
      (the list of modules, port direction / width / base, cables, instance parameters / attributes are proved per
      construct only) and exactness (that the nets, assigns and instances hold nothing else).
-   Character-level tokenisation and the recursive descent from tokens to the document value are not modelled. *)
+   Character level: the tokenizer (TokenFactory, VerilogTokenizer) is modelled in Fmt/VLex.v - theorems C06_lex_* in the
+   last section of this file. The recursive descent from tokens to the document value is not modelled. *)
 From Coq Require Import String.
 From Coq Require Import List ZArith Bool Permutation Lia.
 From SV Require Import Base.Base Fmt.VBits Fmt.VExpr Fmt.VDoc Fmt.VTop Fmt.VElab Fmt.VSpec Fmt.VSem
@@ -817,3 +818,158 @@ Proof. vm_compute. split; reflexivity. Qed.
    (C06_full_assigns_document) on the value elab returns, C06_wf for all documents, the top clause (C06_full_top). *)
 Definition C06_full (well_typed : vdoc -> Prop) (denote : vdoc -> nv -> Prop) : Prop :=
   forall d n, well_typed d -> elab d = Ok n -> exists m, denote d m /\ same_netlist m n.
+
+(* ====================================================================================================
+   Character level (lexer): Fmt/VLex.v models TokenFactory.add_character / flush and the tokenizer's
+   generate_tokens / peek character by character (tied to VerilogTokenizer on every C06 run by
+   harness/verilog_lex.py: every generated text, every wild / damaged text and every bundled example is
+   tokenized by both and compared token by token).  [tokenize_raw] keeps comment tokens (generate_tokens),
+   [tokenize] is what the parser sees (peek drops them).  The model is a structural recursion over the
+   characters, so it terminates on every text by construction.
+     C06_lex_consumes        : for ALL texts, the tokens concatenated are the text with its white space removed
+                               character by character in order: every character that is not white space is in
+                               exactly one raw token, nothing is invented (the one blank the factory puts at the
+                               end of an escaped identifier is white space).
+     C06_lex_seen_are_raw    : what the parser sees is the raw stream without the comment tokens.
+     C06_lex_no_empty_token  : for ALL texts no token is empty.
+     C06_lex_roundtrip       : for ALL lists of well-formed tokens (tok_ok: words = keywords, identifiers, numbers
+                               such as 4'hA; the one-character tokens; escaped identifiers; strings) and every white
+                               space separator: tokenize (print_with sep ts) = ts.
+     C06_lex_block_comment / _line_comment / _white_space : for ALL a, b and comment bodies, when the factory is
+                               between tokens after a (between_tokens: empty buffer, no flag - decidable by running
+                               the model on a), tokenize (a ++ comment ++ b) = tokenize a ++ tokenize b; on the raw
+                               stream the comment is exactly one token between the two.
+     C06_lex_loop            : the accumulator forms that are extracted and run are the recursive forms.
+   NOT proved - C06_lex_roundtrip_full stays a Definition: the same round trip for every token the lexer reads
+   back on its own (compiler directives up to the new line, numbers with a dot such as 1.5, words containing a
+   slash); the recursive descent from tokens to the document value (VerilogParser) is still not modelled.
+   ==================================================================================================== *)
+From SV Require Import Fmt.VLex Proofs.VLexProofs.
+Open Scope N_scope.
+
+Theorem C06_lex_consumes : forall s, strip_ws (concat (tokenize_raw s)) = strip_ws s.
+Proof. exact tokenize_raw_consumes. Qed.
+Print Assumptions C06_lex_consumes.
+
+Theorem C06_lex_seen_are_raw : forall s, tokenize s = filter (fun t => negb (is_comment t)) (tokenize_raw s).
+Proof. reflexivity. Qed.
+Print Assumptions C06_lex_seen_are_raw.
+
+Theorem C06_lex_no_empty_token : forall s, Forall (fun t => t <> []) (tokenize_raw s) /\ Forall (fun t => t <> []) (tokenize s).
+Proof. exact (fun s => conj (tokenize_raw_nonempty s) (tokenize_nonempty s)). Qed.
+Print Assumptions C06_lex_no_empty_token.
+
+Theorem C06_lex_roundtrip : forall sep ts, is_ws sep = true -> forallb tok_ok ts = true ->
+  tokenize (print_with sep ts) = ts /\ tokenize_raw (print_with sep ts) = ts.
+Proof. exact (fun sep ts H1 H2 => conj (tokenize_print_with sep ts H1 H2) (tokenize_raw_print_with sep ts H1 H2)). Qed.
+Print Assumptions C06_lex_roundtrip.
+
+Theorem C06_lex_roundtrip_print_tokens : forall ts, forallb tok_ok ts = true -> tokenize (print_tokens ts) = ts.
+Proof. exact tokenize_print_tokens. Qed.
+Print Assumptions C06_lex_roundtrip_print_tokens.
+
+Theorem C06_lex_block_comment : forall a body b, between_tokens a -> no_close None body = true ->
+  tokenize (a ++ block_comment body ++ b) = tokenize a ++ tokenize b /\
+  tokenize_raw (a ++ block_comment body ++ b) = tokenize_raw a ++ block_comment body :: tokenize_raw b.
+Proof. exact (fun a body b H1 H2 => conj (tokenize_block_comment a body b H1 H2) (tokenize_raw_block_comment a body b H1 H2)). Qed.
+Print Assumptions C06_lex_block_comment.
+
+Theorem C06_lex_line_comment : forall a body b, between_tokens a -> forallb (fun x => negb (x =? 10)) body = true ->
+  tokenize (a ++ line_comment body ++ 10 :: b) = tokenize a ++ tokenize b /\
+  tokenize_raw (a ++ line_comment body ++ 10 :: b) = tokenize_raw a ++ line_comment body :: tokenize_raw b.
+Proof. exact (fun a body b H1 H2 => conj (tokenize_line_comment a body b H1 H2) (tokenize_raw_line_comment a body b H1 H2)). Qed.
+Print Assumptions C06_lex_line_comment.
+
+Theorem C06_lex_white_space : forall a w b, between_tokens a -> forallb is_ws w = true ->
+  tokenize_raw (a ++ w ++ b) = tokenize_raw a ++ tokenize_raw b.
+Proof. exact tokenize_raw_ws. Qed.
+Print Assumptions C06_lex_white_space.
+
+Theorem C06_lex_loop : forall s, tokenize_raw_loop s = tokenize_raw s /\ tokenize_loop s = tokenize s.
+Proof. exact (fun s => conj (tokenize_raw_loop_eq s) (tokenize_loop_eq s)). Qed.
+Print Assumptions C06_lex_loop.
+
+(* the round trip for every token that the lexer reads back on its own (directives need sep = new line) *)
+Definition C06_lex_roundtrip_full : Prop :=
+  forall sep ts, is_ws sep = true -> Forall (fun t => tokenize_raw (t ++ [sep]) = [t]) ts ->
+  tokenize_raw (print_with sep ts) = ts.
+
+(* a source of three modules with a line comment, a directive, a block comment, an attribute with a string,
+   escaped identifiers, sized constants and a defparam; the expected token lists below were produced by
+   spydrnet's VerilogTokenizer (generate_tokens / has_next-next) on the same text *)
+Definition lex_head : str := S "// three modules
+`timescale 1ns/1ps
+".
+Definition lex_a : str := S "module leaf(input a, output [1:0] y); ".
+Definition lex_cbody : str := S " empty: a*b / c **".
+Definition lex_b : str := S " endmodule
+(* top = ""yes"" *) module mid(a, \b[0] , c);
+  input a; inout \b[0] ; output c;
+  wire [3:0] w;
+  leaf u0(.a(a), .y(w[1:0]));
+  assign c = w[0];
+endmodule
+module top(); wire x; mid m0(.a(1'b0), .\b[0] (x), .c());
+  defparam m0.P = 4'hA;
+endmodule
+".
+Definition lex_src : str := lex_head ++ lex_a ++ block_comment lex_cbody ++ lex_b.
+Definition lex_src_raw_tokens : list tok := map s2l
+    ["// three modules"; "`timescale 1ns/1ps"; "module"; "leaf"; "("; "input"; "a"; ","; "output"; "["; 
+     "1"; ":"; "0"; "]"; "y"; ")"; ";"; "/* empty: a*b / c ***/"; "endmodule"; "("; "*"; "top"; "="; 
+     """yes"""; "*"; ")"; "module"; "mid"; "("; "a"; ","; "\b[0] "; ","; "c"; ")"; ";"; "input"; "a"; 
+     ";"; "inout"; "\b[0] "; ";"; "output"; "c"; ";"; "wire"; "["; "3"; ":"; "0"; "]"; "w"; ";"; "leaf"; 
+     "u0"; "("; "."; "a"; "("; "a"; ")"; ","; "."; "y"; "("; "w"; "["; "1"; ":"; "0"; "]"; ")"; ")"; 
+     ";"; "assign"; "c"; "="; "w"; "["; "0"; "]"; ";"; "endmodule"; "module"; "top"; "("; ")"; ";"; 
+     "wire"; "x"; ";"; "mid"; "m0"; "("; "."; "a"; "("; "1'b0"; ")"; ","; "."; "\b[0] "; "("; "x"; ")"; 
+     ","; "."; "c"; "("; ")"; ")"; ";"; "defparam"; "m0"; "."; "P"; "="; "4'hA"; ";"; "endmodule"]%string.
+Definition lex_src_tokens : list tok := map s2l
+    ["`timescale 1ns/1ps"; "module"; "leaf"; "("; "input"; "a"; ","; "output"; "["; "1"; ":"; "0"; "]"; 
+     "y"; ")"; ";"; "endmodule"; "("; "*"; "top"; "="; """yes"""; "*"; ")"; "module"; "mid"; "("; "a"; 
+     ","; "\b[0] "; ","; "c"; ")"; ";"; "input"; "a"; ";"; "inout"; "\b[0] "; ";"; "output"; "c"; ";"; 
+     "wire"; "["; "3"; ":"; "0"; "]"; "w"; ";"; "leaf"; "u0"; "("; "."; "a"; "("; "a"; ")"; ","; "."; 
+     "y"; "("; "w"; "["; "1"; ":"; "0"; "]"; ")"; ")"; ";"; "assign"; "c"; "="; "w"; "["; "0"; "]"; ";"; 
+     "endmodule"; "module"; "top"; "("; ")"; ";"; "wire"; "x"; ";"; "mid"; "m0"; "("; "."; "a"; "("; 
+     "1'b0"; ")"; ","; "."; "\b[0] "; "("; "x"; ")"; ","; "."; "c"; "("; ")"; ")"; ";"; "defparam"; 
+     "m0"; "."; "P"; "="; "4'hA"; ";"; "endmodule"]%string.
+
+Example C06_lex_tokens_witness :
+  tokenize_raw lex_src = lex_src_raw_tokens /\ tokenize lex_src = lex_src_tokens /\
+  length (tokenize_raw lex_src) = 120%nat /\ length (tokenize lex_src) = 118%nat.
+Proof. vm_compute. repeat split; reflexivity. Qed.
+
+Example C06_lex_consumes_witness :
+  strip_ws (concat (tokenize_raw lex_src)) = strip_ws lex_src /\ length (strip_ws lex_src) = 283%nat /\
+  length lex_src = 353%nat.
+Proof. vm_compute. repeat split; reflexivity. Qed.
+
+Example C06_lex_no_empty_token_witness : forallb (fun t => negb (is_nil t)) (tokenize_raw lex_src) = true.
+Proof. vm_compute. reflexivity. Qed.
+
+(* the three modules (without the directive line) consist of well-formed tokens of all four classes, and
+   printing them with any of the five separators and reading them back is the identity *)
+Example C06_lex_roundtrip_witness :
+  let ts := tokenize (lex_a ++ lex_b) in
+  forallb tok_ok ts = true /\ length ts = 117%nat /\
+  existsb word_ok ts && existsb punct_ok ts && existsb escaped_ok ts && existsb string_ok ts = true /\
+  tokenize (print_tokens ts) = ts /\ tokenize (print_with 10 ts) = ts /\ print_tokens ts <> lex_a ++ lex_b.
+Proof. vm_compute. repeat split; try reflexivity. discriminate. Qed.
+
+(* the hypotheses of the comment theorems hold for the example: after "...y); " the factory is between tokens,
+   the body " empty: a*b / c **" does not close the comment early *)
+Example C06_lex_block_comment_witness :
+  between_tokens (lex_head ++ lex_a) /\ no_close None lex_cbody = true /\
+  tokenize lex_src = tokenize (lex_head ++ lex_a) ++ tokenize lex_b /\
+  length (tokenize (lex_head ++ lex_a)) = 16%nat /\ length (tokenize lex_b) = 102%nat /\
+  ~ between_tokens (S "module leaf(input a").
+Proof.
+  split; [split; vm_compute; reflexivity|]. split; [vm_compute; reflexivity|]. split.
+  - vm_compute; reflexivity.
+  - split; [vm_compute; reflexivity|]. split; [vm_compute; reflexivity|]. intros [H _]. vm_compute in H. discriminate.
+Qed.
+
+Example C06_lex_line_comment_witness :
+  between_tokens [] /\
+  tokenize_raw (line_comment (S " three modules") ++ 10 :: lex_a) = line_comment (S " three modules") :: tokenize_raw lex_a /\
+  tokenize (line_comment (S " three modules") ++ 10 :: lex_a) = tokenize lex_a.
+Proof. split; [split; reflexivity|]. vm_compute. split; reflexivity. Qed.
